@@ -384,7 +384,6 @@ func proveGE0(v ssa.Value, fs []fact, depth int) bool {
 	return false
 }
 
-
 // knownLen: the length of y is a compile-time constant: a full slice of an array, or the result
 // of a module function whose every return is such a slice.
 func knownLen(y ssa.Value) (int64, bool) {
